@@ -19,6 +19,17 @@ def specEnc (b64 : Bool) (bs : List Nat) (obs : String) : Bool × String :=
   if obs != "ok " ++ fmtUnits 8 want then (false, "encoding differs from RFC 4648")
   else if want.length != wantLen then (false, "length") else (true, "")
 
+/-- the decoded bytes are the ones the text encodes (C14's "decodes back"): re-encoding them with the RFC encoder gives the
+    text again — up to the unused low bits of the last data character of a padded group, which RFC 4648 lets a decoder
+    ignore, and up to letter case for hex -/
+def decodedMatches (b64 : Bool) (txt out : List Nat) : Bool :=
+  if b64 then
+    let enc := Rfc4648.b64Encode out
+    let k := txt.length - 1 - Rfc4648.padCount txt       -- index of the last data character
+    enc.length == txt.length &&
+      (List.range txt.length).all fun i => enc.getD i 0 == txt.getD i 1 || (i == k && Rfc4648.padCount txt > 0)
+  else Rfc4648.hexEncode out == txt.map fun c => if 65 ≤ c && c ≤ 70 then c + 32 else c
+
 /-- spec verdict for the allocating decoder -/
 def specDecAlloc (b64 : Bool) (txt : List Nat) (obs : String) : Bool × String :=
   let valid := if b64 then Rfc4648.b64Valid txt else Rfc4648.hexValid txt
@@ -26,7 +37,9 @@ def specDecAlloc (b64 : Bool) (txt : List Nat) (obs : String) : Bool × String :
     if obs.startsWith "ok " then
       let out := parseUnits 8 (obs.drop 3).toString
       let wantLen := if b64 then Rfc4648.b64DecodedLength txt else txt.length / 2
-      if out.length != wantLen then (false, "decoded length") else (true, "")
+      if out.length != wantLen then (false, "decoded length")
+      else if !decodedMatches b64 txt out then (false, "decoded bytes are not the bytes the text encodes")
+      else (true, "")
     else (false, "valid input rejected")
   else
     if obs == "throw codec_error" then (true, "") else (false, "invalid input not rejected with codec_error")
@@ -48,7 +61,11 @@ def specDecInto (b64 : Bool) (txt : List Nat) (cap : Option Nat) (c : Case) : Bo
       else (if ret == -1 then (true, "") else (false, "null-output size query on bad length"))
   | some cap =>
       if valid ∧ wantLen ≤ cap then
-        if ret == wantLen then (true, "") else (false, "valid input that fits not decoded to the implied length")
+        if ret != wantLen then (false, "valid input that fits not decoded to the implied length")
+        else
+          let outTok := (c.obs.find? (·.startsWith "out=")).getD "out=-"
+          if !decodedMatches b64 txt (parseUnits 8 (outTok.drop 4).toString) then (false, "decoded bytes are not the bytes the text encodes")
+          else (true, "")
       else if ret == -1 then (true, "") else (false, "invalid or oversized input not rejected with -1")
 
 def itemBytes (kind : String) (i : Nat) : List Nat :=
